@@ -82,6 +82,22 @@ def gen_case(rng, thorough):
                 if "tags" in f: ops.append({"op": "search", "pattern": {"tags": [rng.choice(f["tags"])]}, "inherited": False})
             else:
                 ops.append({"op": "addFact", "id": fid, "fact": f})
+        elif r < 0.365:
+            # a heartbeat: one id is written twice with a relative ttl (stored both times with an absolute `expires`), then it is
+            # searched for by that property -- alone and next to one of its fields
+            fid = rng.choice(FIDS)
+            f1, f2 = dict(d), dict(rng.choice(base))
+            for f in (f1, f2):
+                f.pop("rule", None); f.pop("id", None)
+                f["ttl"] = rng.choice([100000, "1000m", "2h"])
+                versions.append(dict(f))
+            ops.append({"op": "addFact", "id": fid, "fact": f1})
+            ops.append({"op": "addFact", "id": fid, "fact": f2})
+            ops.append({"op": "search", "pattern": {"expires": "?when"}, "inherited": False})
+            ks = [k for k, v in f2.items() if k != "ttl" and not isinstance(v, (list, dict))]
+            if ks:
+                k = rng.choice(ks)
+                ops.append({"op": "search", "pattern": {"expires": "?when", k: f2[k]}, "inherited": False})
         elif r < 0.385:
             # an overwrite that is REFUSED after the state has looked at what it replaces (a rule body the rule index cannot take:
             # no `when`, or a `when` whose array is not sortable): the stored fact stays stored, indexed and searchable as it was
